@@ -74,7 +74,7 @@ def run(ck):
     from spsdk.sbfile.sb31 import functions as sb31
     from spsdk.utils.misc import Endianness
 
-    ck.lean_obligations(generated=["CrcTable", "SymConsts"])
+    ck.lean_obligations(generated=["CrcTable", "SymConsts", "Sb31Kdf"])
     drv = ck.driver()
     ck.assume(
         "cryptography/OpenSSL implements AES (ECB/CBC/CTR/XTS/CCM, RFC 3394), SM4-CBC, CMAC, HMAC, HKDF, SHA-1/2 as the Lean "
@@ -93,7 +93,24 @@ def run(ck):
             set(algorithms.AES.key_sizes) != {128, 192, 256, 512} or set(algorithms.SM4.key_sizes) != {128}:
         raise Infra("cryptography's AES/SM4 class constants differ from what tools/extract/gen_C09.py assumes")
     meta = ck.generated_meta.get("SymConsts", {})
-    ck.extra["generated_fallbacks"] = meta.get("fallback", {})
+    ck.extra["generated_fallbacks"] = dict(meta.get("fallback", {}))
+    if ck.generated_meta.get("Sb31Kdf", {}).get("fallback"):
+        ck.extra["generated_fallbacks"]["Sb31Kdf.table"] = ck.generated_meta["Sb31Kdf"]["fallback"]
+    # live cross-check of the generated tables (a disagreement is extractor trouble = infrastructure, never a verdict)
+    live_enum = [[m.name, m.tag, m.label] for m in EnumHashAlgorithm]
+    if meta.get("values", {}).get("hashEnum") != live_enum and "hashEnum" not in meta.get("fallback", {}):
+        raise Infra(f"generated EnumHashAlgorithm {meta.get('values', {}).get('hashEnum')} disagrees with the live enum {live_enum}")
+    import re as _re
+    from vcore import GEN
+    kdf_rows = 0
+    for mm in _re.finditer(r"^\s*\((\d+), (\d+), (true|false), (\d+), (\d+), (none|some \[([0-9, ]*)\])\)", (GEN / "Sb31Kdf.lean").read_text(), _re.M):
+        dc, rights, kdk, kl, it = int(mm.group(1)), int(mm.group(2)), mm.group(3) == "true", int(mm.group(4)), int(mm.group(5))
+        want = ("E:spsdk",) if mm.group(6) == "none" else ("ok", bytes(int(x) for x in mm.group(7).split(",")))
+        got = pyres(sb31._get_key_derivation_data, dc, rights, sb31.KeyDerivationMode.KDK if kdk else sb31.KeyDerivationMode.BLK, kl, it)
+        kdf_rows += 1
+        if got != want:
+            raise Infra(f"generated SB3.1 KDF table row {(dc, rights, kdk, kl, it)} disagrees with the live function (extractor trouble)")
+    ck.extra["sb31_kdf_table_rows_crosschecked"] = kdf_rows
 
     rng = ck.rng
     rb = rng.randbytes
@@ -515,6 +532,35 @@ def run(ck):
                     return h.finalize()
                 s.expect(pyres(inc) == r, inp + (cut,), "Hash.update in two pieces differs from one-shot get_hash", pyres(inc), r)
         s.expect(pyres(get_hash_length, ea) == ("ok", hashlib.new(a).digest_size), ("hash_len", a), "get_hash_length wrong", pyres(get_hash_length, ea))
+        # streaming Hash object: EVERY split point of every message up to the tier's length, + random 3-way splits
+        for n in range(0, ck.budget(72, 141)):
+            m = rb(n)
+            one = hashlib.new(a, m).digest()
+            for cut in range(0, n + 1):
+                def two():
+                    h = Hash(ea)
+                    h.update(m[:cut])
+                    h.update(m[cut:])
+                    return h.finalize()
+                r2 = pyres(two)
+                s.note(("hash-split", a, n, cut), cls="hash split " + a)
+                s.expect(r2 == ("ok", one), ("hash-split", a, m, cut), "Hash.update(m[:i]); update(m[i:]); finalize() differs from the one-shot digest", r2, one)
+                if cut in (0, n // 2, n) or (n in (55, 56, 63, 64, 65, 111, 112, 127, 128, 129) and cut % 8 == 0):
+                    B.corr(s, ("hash-split", a, m, cut), f"w_hash_stream {a} {hexs(m[:cut])} {hexs(m[cut:])}", canon(r2))
+        for _ in range(ck.budget(10, 100)):
+            m = rb(rng.choice([0, 1, 64, 127, 128, 129, 300, 1000]))
+            cuts = sorted(rng.randrange(0, len(m) + 1) for _ in range(rng.randrange(0, 4)))
+            parts = [m[i:j] for i, j in zip([0] + cuts, cuts + [len(m)])]
+
+            def multi():
+                h = Hash(ea)
+                for part in parts:
+                    h.update(part)
+                return h.finalize()
+            rm = pyres(multi)
+            s.note(("hash-multi", a, len(m), cuts), cls="hash split " + a)
+            s.expect(rm == ("ok", hashlib.new(a, m).digest()), ("hash-multi", a, m, cuts), "Hash with several update() calls differs from the one-shot digest", rm)
+            B.corr(s, ("hash-multi", a, m, cuts), f"w_hash_stream {a} " + " ".join(hexs(x) for x in parts), canon(rm))
         for v in (0, 1, 255, 256, 65535, 65536, -1, -256, rng.getrandbits(64), rng.getrandbits(521), -rng.getrandbits(100)):
             def hint():
                 h = Hash(ea)
@@ -541,6 +587,13 @@ def run(ck):
                     rv = pyres(hmac_validate, k, m, sig, ea)
                     B.corr(s, inp + ("validate", sig), f"w_hmac_validate {a} {hexs(k)} {hexs(m)} {hexs(sig)}", canon(rv))
                     s.expect(rv == ("ok", sig == want), inp + ("validate", sig), "hmac_validate answer wrong", rv, sig == want)
+    for member in EnumHashAlgorithm:
+        r = pyres(get_hash_length, member)
+        s.note(("hash_len", member.label), cls="get_hash_length")
+        B.corr(s, ("hash_len", member.label), f"w_hash_len {member.label}", canon(r))
+        std = {"sha1": 20, "sha256": 32, "sha384": 48, "sha512": 64, "md5": 16, "sm3": 32}
+        s.expect(r == (("ok", std[member.label]) if member.label in std else ("E:spsdk",)), ("hash_len", member.label),
+                 "get_hash_length is not the digest size of the standard / an unsupported algorithm is not an SPSDK error", r)
     r = pyres(hmac, b"k", b"m")
     s.expect(r == ("ok", pyhmac.new(b"k", b"m", "sha256").digest()), ("hmac-default",), "hmac default algorithm is not SHA-256", r)
     r = pyres(get_hash, b"m")
@@ -625,6 +678,29 @@ def run(ck):
                     rv = pyres(lambda: from_crc_algorithm(alg).verify(d, cand))
                     B.corr(s, inp + ("verify", cand), f"w_crc_verify {name} {hexs(d)} {cand}", canon(rv))
                     s.expect(rv == ("ok", cand == r[1]), inp + ("verify", cand), "Crc.verify answer wrong", rv)
+    # algebraic facts proved for the model (Properties/C09 Part F), evaluated on the real code
+    resid = {"CRC32": (4, "little", 0x2144DF1C), "CRC32_MPEG": (4, "big", 0), "CRC16_XMODEM": (2, "big", 0)}
+    for name in names:
+        if name not in resid:
+            continue
+        calc = from_crc_algorithm(getattr(CrcAlg, name)).calculate
+        nb, order, const = resid[name]
+        for _ in range(ck.budget(40, 600)):
+            n = rng.choice([0, 1, 2, 7, 16, 33, rng.randrange(0, 200)])
+            m = rb(n)
+            r = pyres(lambda: calc(m + calc(m).to_bytes(nb, order)))
+            s.note(("crc-residue", name, m), cls=name + " residue")
+            s.expect(r == ("ok", const), ("crc-residue", name, m), f"{name}: message followed by its own CRC does not check to the residue constant", r, const)
+            if n:
+                i = rng.randrange(n)
+                m2 = m[:i] + bytes([m[i] ^ rng.randrange(1, 256)]) + m[i + 1:]
+                r1, r2 = pyres(calc, m), pyres(calc, m2)
+                s.note(("crc-burst", name, m, i), cls=name + " single-byte change")
+                s.expect(r1[0] == "ok" and r2[0] == "ok" and r1 != r2, ("crc-burst", name, m, m2), f"{name}: a change confined to one byte leaves the CRC unchanged", (r1, r2))
+                a_, b_ = rb(n), rb(n)
+                x3 = bytes(p ^ q ^ t for p, q, t in zip(m, a_, b_))
+                ra = pyres(lambda: calc(m) ^ calc(a_) ^ calc(b_))
+                s.expect(pyres(calc, x3) == ra, ("crc-affine", name, m, a_, b_), f"{name} is not an affine function of the message (crc(a^b^c) != crc(a)^crc(b)^crc(c))", pyres(calc, x3), ra)
     r = pyres(from_crc_algorithm, "crc-unknown")
     s.expect(r[0] == "E:spsdk", ("crc-unknown",), "unknown CRC algorithm name is not refused with an SPSDK error", r)
     B.flush()
